@@ -11,10 +11,13 @@ QUAL = "Circuit.add_subcircuit"
 layer1.SUMMARIES.update(layer2.SUMMARIES)
 
 
-def task(nconn, strip, literal_name=False):
+def task(nconn, strip, literal_name=False, direct_wired=False):
+    """direct_wired=False: body == contract for `nconn` explicit connections.
+    direct_wired=True: C07 on the body with an arbitrary dict of connections (io name -> net name): `wired` on every
+    exit and a rejected call leaves edges and registry as they were (callees used through their contracts)."""
     def run(ctx):
         fn, seg, sha = engine.find_function(F, QUAL)
-        label = f"{QUAL}[connections={nconn},strip_io={strip},name={'literal' if literal_name else 'symbolic'}]"
+        label = f"{QUAL}[connections={'dict of str' if direct_wired else nconn},strip_io={strip},name={'literal' if literal_name else 'symbolic'}]"
         T = ctx.tval
         H = {}
 
@@ -85,6 +88,19 @@ def task(nconn, strip, literal_name=False):
                         ("values", z3.ForAll([x], z3.Implies(z3.Select(b.dom, x), z3.Select(b.val, x) == z3.Select(b_in.val, x))))]
             return ex.invariant_for(s, st, it, ordinal, inv, mod_objs=[_reg(me)], label="unregister")
 
+        def loop_conns(ex, s, st, it, ordinal):
+            me = st.env["self"]
+            g_in = st.g(me)
+            isimg = lambda t: z3.And(t == pre(H["unpre"](t)), H["gs"].node(H["unpre"](t)))
+            def inv(ex, stx, done):
+                g = stx.g(me)
+                u, v = ctx.fresh_name("cu"), ctx.fresh_name("cv")
+                return [("attributes-unchanged", g.same(g_in, ctx, fields=["N", "hasty", "ty", "hasout", "out"])),
+                        ("graph-invariant", g.wf(ctx)),
+                        ("wiring", spec.wired_edges(ctx, g)),
+                        ("edges-among-old-nodes-unchanged", z3.ForAll([u, v], z3.Implies(z3.And(z3.Not(isimg(u)), z3.Not(isimg(v))), g.edge(u, v) == g_in.edge(u, v))))]
+            return ex.invariant_for(s, st, it, ordinal, inv, mod_objs=[me], label="connections")
+
         ex = Exec(ctx, summaries={k: v for k, v in layer1.SUMMARIES.items() if k != QUAL}, module_consts=engine.module_constants(F), fname=label)
         ex.select_candidates = True
         import ast as _ast
@@ -103,6 +119,8 @@ def task(nconn, strip, literal_name=False):
                 ex.loop_specs[k + 1] = loop_bbs
             elif "for bb_name in sc.blackboxes" in first and "pop" in src:
                 ex.loop_specs[k + 1] = loop_unregister
+            elif direct_wired and "connections.items()" in first and "connect(" in src:
+                ex.loop_specs[k + 1] = loop_conns
         def cut_after_update(ex_, st):
             """the merged graph right after `self.graph.update(g)`, in the form the contract uses (prefix / inverse prefix)"""
             g, g0_, gs_ = st.g(H["me"]), H["g0"], H["gs"]
@@ -122,12 +140,17 @@ def task(nconn, strip, literal_name=False):
             if isinstance(n_, _ast.Expr) and isinstance(n_.value, _ast.Call) and getattr(n_.value.func, "attr", "") == "update":
                 ex.cuts[n_.end_lineno] = cut_after_update
         st0 = State({}, {}, [])
-        me = verify.mk_circuit(ex, st0, "self")
-        sc = verify.mk_circuit(ex, st0, "sc")
+        me = verify.mk_circuit(ex, st0, "self", wf=not direct_wired)
+        sc = verify.mk_circuit(ex, st0, "sc", wf=not direct_wired)
         gs = st0.g(sc)
         x = ctx.fresh_name("tx")
-        st0.pc.append(z3.ForAll([x], z3.Implies(gs.node(x), z3.Select(gs.hasty, x))))   # sc.inputs() needs typed nodes
-        st0.pc.append(spec.typed(ctx, st0.g(me)))
+        pin2 = ctx.template(("", ".", ""))
+        if direct_wired:
+            st0.pc.append(spec.wired(ctx, st0.g(me), st0.bb(me), pin2))
+            st0.pc.append(spec.wired(ctx, gs, st0.bb(sc), pin2))
+        else:
+            st0.pc.append(z3.ForAll([x], z3.Implies(gs.node(x), z3.Select(gs.hasty, x))))   # sc.inputs() needs typed nodes
+            st0.pc.append(spec.typed(ctx, st0.g(me)))
         name = StrLit("c0") if literal_name else NameV(ctx.fresh_name("name"))
         H["pre"], H["unpre"] = layer2.prefix_fn(ex, name)
         H["me"], H["g0"], H["gs"] = me, st0.g(me), gs
@@ -138,8 +161,31 @@ def task(nconn, strip, literal_name=False):
             for a in range(nconn):
                 for b in range(a):
                     st0.pc.append(items[a][0] != items[b][0])
+        if direct_wired:
+            cdom = ctx.arr_nb("connections_keys")
+            cval = z3.Function("connections_value", ctx.Name, ctx.Name)
+            conns = DictV(lambda y: z3.Select(cdom, y), lambda y: NameV(cval(y)))
         bind = {"self": me, "sc": sc, "name": name, "connections": conns, "strip_io": strip}
         body = verify.bind_and_run(ex, fn, st0, bind)
+        if direct_wired:
+            g0, bb0 = st0.g(me), st0.bb(me)
+            n_ret = n_exc = 0
+            for o in body:
+                i = o.st.pathid()
+                g1, bb1 = o.st.g(me), o.st.bb(me)
+                what = "raise(" + str(o.exc) + ")" if o.kind == "raise" else "return"
+                for lab, f in [("graph-invariant", g1.wf(ctx)), ("typed", spec.typed(ctx, g1)), ("wiring", spec.wired_edges(ctx, g1)),
+                               ("registry", spec.registry_ok(ctx, g1, bb1, pin2, None))]:
+                    ctx.oblige(f"{label}/wired#{i}:{what}:{lab}", o.st.pc, f, "post")
+                if o.kind == "raise":
+                    n_exc += 1
+                    ctx.oblige(f"{label}/rejected-call-adds-no-edge#{i}:{what}", o.st.pc, spec.same_edges(ctx, g1, g0), "post")
+                    ctx.oblige(f"{label}/rejected-call-keeps-registry#{i}:{what}", o.st.pc, bb1.same(bb0, ctx), "post")
+                    ctx.oblige(f"{label}/rejected-call-class#{i}:{what}", o.st.pc, z3.BoolVal(o.exc in ("ValueError", "KeyError")), "post")
+                else:
+                    n_ret += 1
+            ctx.oblige(f"{label}/cover:returns-and-rejects", [], z3.BoolVal(n_ret > 0 and n_exc > 0), "cover")
+            return {"function": f"{F}::{QUAL}", "sha256": sha, "lines": [fn.lineno, fn.end_lineno], "variants": [label], "kind": "postcondition on the body"}
         specs = verify.run_summary(ex, layer2.s_add_subcircuit, st0, me, [sc, name], {"connections": conns, "strip_io": strip})
         verify.refine_vcs(ex, label, st0, body, specs)
         return {"function": f"{F}::{QUAL}", "sha256": sha, "lines": [fn.lineno, fn.end_lineno], "variants": [label]}
@@ -215,3 +261,243 @@ def task_add_blackbox():
 
 
 TASKS["layer2/add_blackbox[no connections]"] = task_add_blackbox()
+TASKS["C07/add_subcircuit[connections] on the body"] = task(0, True, direct_wired=True)
+
+
+def task_add_blackbox_connections():
+    """C07 on the body of add_blackbox with an arbitrary dict of connections (pin name -> net name): `wired` holds on
+    every exit, a rejected call leaves the edge set and the registry as they were.  Proved directly on the body (loop
+    invariants carry the wiring clauses); callees (add, connect, remove) are used through their contracts."""
+    def run(ctx):
+        import ast as _ast
+        from pyvc.exec import BBVal
+        fn, seg, sha = engine.find_function(F, QUAL_BB)
+        label = f"{QUAL_BB}[connections: dict of str]"
+        T = ctx.tval
+        H = {}
+
+        def loop_pins(kind):
+            def spec_(ex, s, st, it, ordinal):
+                me = st.env["self"]
+                g_in = st.g(me)
+                pin = H["pin"]
+                def inv(ex, stx, done):
+                    g = stx.g(me)
+                    x, n = ctx.fresh_name("px"), ctx.fresh_name("pn")
+                    hit = lambda t: z3.Exists([n], z3.And(done.mem(n), t == pin(n)))
+                    return [("nodes", z3.ForAll([x], g.node(x) == z3.Or(g_in.node(x), hit(x)))),
+                            ("hasty", z3.ForAll([x], z3.Select(g.hasty, x) == z3.Or(z3.Select(g_in.hasty, x), hit(x)))),
+                            ("hasout", z3.ForAll([x], z3.Select(g.hasout, x) == z3.Or(z3.Select(g_in.hasout, x), hit(x)))),
+                            ("types", z3.ForAll([x], z3.Select(g.ty, x) == z3.If(hit(x), T[kind], z3.Select(g_in.ty, x)))),
+                            ("outputs", z3.ForAll([x], z3.Select(g.out, x) == z3.If(hit(x), False, z3.Select(g_in.out, x)))),
+                            ("edges", g.same(g_in, ctx, fields=["FI"])),
+                            ("accepted", z3.ForAll([n], z3.Implies(done.mem(n), z3.And(z3.Not(g_in.node(pin(n))), z3.Not(ex.str_empty(pin(n))), z3.Not(ex.starts_digit(pin(n)))))))]
+                return ex.invariant_for(s, st, it, ordinal, inv, mod_locals=["io"], mod_objs=[me], label=f"pins-{kind}")
+            return spec_
+
+        def loop_conns(ex, s, st, it, ordinal):
+            me = st.env["self"]
+            g_in = st.g(me)
+            ispin = H["ispin"]
+            def inv(ex, stx, done):
+                g = stx.g(me)
+                u, v = ctx.fresh_name("cu"), ctx.fresh_name("cv")
+                return [("attributes-unchanged", g.same(g_in, ctx, fields=["N", "hasty", "ty", "hasout", "out"])),
+                        ("graph-invariant", g.wf(ctx)),
+                        ("wiring", spec.wired_edges(ctx, g)),
+                        ("edges-among-old-nodes-unchanged", z3.ForAll([u, v], z3.Implies(z3.And(z3.Not(ispin(u)), z3.Not(ispin(v))), g.edge(u, v) == g_in.edge(u, v))))]
+            return ex.invariant_for(s, st, it, ordinal, inv, mod_objs=[me], label="connections")
+
+        ex = Exec(ctx, summaries={k: v for k, v in layer1.SUMMARIES.items() if k != QUAL_BB}, module_consts=engine.module_constants(F), fname=label)
+        loops = sorted([n for n in _ast.walk(fn) if isinstance(n, (_ast.For, _ast.While))], key=lambda n: (n.lineno, n.col_offset))
+        ex.loop_specs = {}
+        for k, n in enumerate(loops):
+            first = _ast.unparse(n).split("\n")[0]
+            if "blackbox.inputs()" in first:
+                ex.loop_specs[k + 1] = loop_pins("bb_input")
+            elif "blackbox.outputs()" in first:
+                ex.loop_specs[k + 1] = loop_pins("bb_output")
+            elif "connections.items()" in first:
+                ex.loop_specs[k + 1] = loop_conns
+        st0 = State({}, {}, [])
+        me = verify.mk_circuit(ex, st0, "self", wf=False)
+        pin2 = ctx.template(("", ".", ""))
+        g0, bb0 = st0.g(me), st0.bb(me)
+        st0.pc.append(spec.wired(ctx, g0, bb0, pin2))
+        name = NameV(ctx.fresh_name("name"))
+        b = BBVal(ctx.fresh("blackbox", ctx.BB))
+        H["pin"] = layer2.pin_fn(ex, name)
+        nm = ex.name_term(name)
+        unpin = ctx.template_inverse[("", ".", "")]
+        H["ispin"] = lambda t: z3.And(t == pin2(nm, unpin(nm, t)), z3.Or(ctx.bb_in(b.term, unpin(nm, t)), ctx.bb_out(b.term, unpin(nm, t))))
+        cdom = ctx.arr_nb("connections_keys")
+        cval = z3.Function("connections_value", ctx.Name, ctx.Name)
+        conns = DictV(lambda y: z3.Select(cdom, y), lambda y: NameV(cval(y)))
+        bind = {"self": me, "blackbox": b, "name": name, "connections": conns}
+        outs = verify.bind_and_run(ex, fn, st0, bind)
+        n_ret = n_exc = 0
+        for o in outs:
+            i = o.st.pathid()
+            g1, bb1 = o.st.g(me), o.st.bb(me)
+            what = "raise(" + str(o.exc) + ")" if o.kind == "raise" else "return"
+            for lab, f in [("graph-invariant", g1.wf(ctx)), ("typed", spec.typed(ctx, g1)), ("wiring", spec.wired_edges(ctx, g1)),
+                           ("registry", spec.registry_ok(ctx, g1, bb1, pin2, None))]:
+                ctx.oblige(f"{label}/wired#{i}:{what}:{lab}", o.st.pc, f, "post")
+            if o.kind == "raise":
+                n_exc += 1
+                ctx.oblige(f"{label}/rejected-call-adds-no-edge#{i}:{what}", o.st.pc, spec.same_edges(ctx, g1, g0), "post")
+                ctx.oblige(f"{label}/rejected-call-keeps-registry#{i}:{what}", o.st.pc, bb1.same(bb0, ctx), "post")
+                ctx.oblige(f"{label}/rejected-call-class#{i}:{what}", o.st.pc, z3.BoolVal(o.exc in ("ValueError", "KeyError")), "post")
+            else:
+                n_ret += 1
+        ctx.oblige(f"{label}/cover:returns-and-rejects", [], z3.BoolVal(n_ret > 0 and n_exc > 0), "cover")
+        return {"function": f"{F}::{QUAL_BB}", "sha256": sha, "lines": [fn.lineno, fn.end_lineno], "variants": [label], "kind": "postcondition on the body"}
+    return run
+
+
+TASKS["C07/add_blackbox[connections] on the body"] = task_add_blackbox_connections()
+
+
+# ------------------------------------------------------------------------------------------------ fill_blackbox
+QUAL_FILL = "Circuit.fill_blackbox"
+
+
+def task_fill_blackbox():
+    """C07 on the body of fill_blackbox(name, c): `wired` on every exit; a rejected call leaves the circuit as it was.
+    Domain of the proved variant: every pin node of the filled instance is present (no pin removed by the caller) and
+    is not at the same time a pin node of another instance (R2 below) -- histories outside it are bounded-checked."""
+    def run(ctx):
+        import ast as _ast
+        from pyvc.exec import BBVal
+        fn, seg, sha = engine.find_function(F, QUAL_FILL)
+        label = f"{QUAL_FILL}[all pins present]"
+        T = ctx.tval
+        H = {}
+        pre = lambda n: H["pre"](n)
+
+        def loop_mapping(ex, s, st, it, ordinal):
+            me = st.env["self"]
+            g = st.g(me)
+            def inv(ex, stx, done):
+                mp = stx.env["mapping"]
+                x = ctx.fresh_name("mx")
+                return [("domain", z3.ForAll([x], mp.dom(x) == done.mem(x))),
+                        ("values", z3.ForAll([x], z3.Implies(done.mem(x), mp.val(x).term == pre(x)))),
+                        ("no-overlap-so-far", z3.ForAll([x], z3.Implies(done.mem(x), z3.Not(g.node(pre(x))))))]
+            return ex.invariant_for(s, st, it, ordinal, inv, mod_locals=["mapping"], label="mapping")
+
+        def loop_strip(kind):
+            def spec_(ex, s, st, it, ordinal):
+                me = st.env["self"]
+                g_in = st.g(me)
+                def inv(ex, stx, done):
+                    g = stx.g(me)
+                    x, n = ctx.fresh_name("sx"), ctx.fresh_name("sn")
+                    hit = lambda t: z3.Exists([n], z3.And(done.mem(n), t == pre(n)))
+                    if kind == "type":
+                        return [("types", z3.ForAll([x], z3.Select(g.ty, x) == z3.If(hit(x), T["buf"], z3.Select(g_in.ty, x)))),
+                                ("hasty", z3.ForAll([x], z3.Select(g.hasty, x) == z3.Or(z3.Select(g_in.hasty, x), hit(x)))),
+                                ("rest", g.same(g_in, ctx, fields=["N", "hasout", "out", "FI"]))]
+                    return [("hasout", z3.ForAll([x], z3.Select(g.hasout, x) == z3.Or(z3.Select(g_in.hasout, x), hit(x)))),
+                            ("rest", g.same(g_in, ctx, fields=["N", "hasty", "ty", "FI"]))]
+                return ex.invariant_for(s, st, it, ordinal, inv, mod_objs=[me], label=f"strip-{kind}")
+            return spec_
+
+        def _reg(ref):
+            class R:
+                oid = ref.oid
+                kind = ref.kind
+                havoc_registry = True
+                registry_only = True
+            return R()
+
+        def loop_bbs(ex, s, st, it, ordinal):
+            me, c_ = st.env["self"], st.env["c"]
+            b_in, bs = st.bb(me), st.bb(c_)
+            def inv(ex, stx, done):
+                b = stx.bb(me)
+                x, n = ctx.fresh_name("bx"), ctx.fresh_name("bn")
+                hit = lambda t: z3.Exists([n], z3.And(done.mem(n), t == pre(n)))
+                return [("domain", z3.ForAll([x], z3.Select(b.dom, x) == z3.Or(z3.Select(b_in.dom, x), hit(x)))),
+                        ("old-values", z3.ForAll([x], z3.Implies(z3.And(z3.Select(b_in.dom, x), z3.Not(hit(x))), z3.Select(b.val, x) == z3.Select(b_in.val, x)))),
+                        ("new-values", z3.ForAll([n], z3.Implies(done.mem(n), z3.Select(b.val, pre(n)) == z3.Select(bs.val, n))))]
+            return ex.invariant_for(s, st, it, ordinal, inv, mod_objs=[_reg(me)], label="registry")
+
+        ex = Exec(ctx, summaries={k: v for k, v in layer1.SUMMARIES.items() if k != QUAL_FILL}, module_consts=engine.module_constants(F), fname=label)
+        loops = sorted([n for n in _ast.walk(fn) if isinstance(n, (_ast.For, _ast.While))], key=lambda n: (n.lineno, n.col_offset))
+        ex.loop_specs = {}
+        for k, n in enumerate(loops):
+            first = _ast.unparse(n).split("\n")[0]
+            if first.startswith("for n in c:"):
+                ex.loop_specs[k + 1] = loop_mapping
+            elif ".inputs()" in first and "self.blackboxes" in first:
+                ex.loop_specs[k + 1] = loop_strip("type")
+            elif ".outputs()" in first and "self.blackboxes" in first:
+                ex.loop_specs[k + 1] = loop_strip("output")
+            elif "c.blackboxes.items()" in first:
+                ex.loop_specs[k + 1] = loop_bbs
+        st0 = State({}, {}, [])
+        me = verify.mk_circuit(ex, st0, "self", wf=False)
+        c = verify.mk_circuit(ex, st0, "c", wf=False)
+        pin2 = ctx.template(("", ".", ""))
+        unpin2 = ctx.template_inverse[("", ".", "")]
+        g0, bb0, gc, bc = st0.g(me), st0.bb(me), st0.g(c), st0.bb(c)
+        st0.pc.append(spec.wired(ctx, g0, bb0, pin2))
+        st0.pc.append(spec.wired(ctx, gc, bc, pin2))
+        name = NameV(ctx.fresh_name("name"))
+        nm = name.term
+        H["pre"], H["unpre"] = layer2.prefix_fn(ex, name)
+        unpre = H["unpre"]
+        bterm = z3.Select(bb0.val, nm)
+        io_b = lambda n: z3.Or(ctx.bb_in(bterm, n), ctx.bb_out(bterm, n))
+        pin = lambda n: pin2(nm, n)
+        ispin = lambda t: z3.And(t == pin(unpin2(nm, t)), io_b(unpin2(nm, t)))
+        img = lambda t: z3.And(t == pre(unpre(t)), gc.node(unpre(t)))
+        waspin = lambda t: z3.And(img(t), io_b(unpre(t)), g0.node(pin(unpre(t))))
+        back = lambda t: z3.If(waspin(t), pin(unpre(t)), t)
+        N1 = lambda t: z3.Or(z3.And(g0.node(t), z3.Not(ispin(t))), waspin(t))
+        # R2: a pin node of the filled instance is not a pin node of another recorded instance
+        i_, p_ = ctx.fresh_name("ri"), ctx.fresh_name("rp")
+        st0.pc.append(z3.ForAll([i_, p_], z3.Implies(z3.And(z3.Select(bb0.dom, i_), i_ != nm,
+                                                          z3.Or(ctx.bb_in(z3.Select(bb0.val, i_), p_), ctx.bb_out(z3.Select(bb0.val, i_), p_))),
+                                                   z3.Not(ispin(pin2(i_, p_))))))
+
+        def cut_after_update(ex_, st):
+            g = st.g(me)
+            t, u, v = ctx.fresh_name("ct"), ctx.fresh_name("cu"), ctx.fresh_name("cv")
+            return {"forget": ("rl_", "relabel_source", "N!", "FI!", "hasty!", "hasout!", "ty!", "out!"), "facts": [
+                ("merged:nodes", z3.ForAll([t], g.node(t) == z3.Or(z3.And(g0.node(t), z3.Not(ispin(t))), img(t)))),
+                ("merged:edges", z3.ForAll([u, v], g.edge(u, v) == z3.Or(z3.And(N1(u), N1(v), g0.edge(back(u), back(v))),
+                                                                         z3.And(img(u), img(v), gc.edge(unpre(u), unpre(v)))))),
+                ("merged:hasty", z3.ForAll([t], z3.Select(g.hasty, t) == z3.If(img(t), z3.Select(gc.hasty, unpre(t)), z3.And(z3.Select(g0.hasty, t), z3.Not(ispin(t)))))),
+                ("merged:types", z3.ForAll([t], z3.Implies(z3.Select(g.hasty, t), z3.Select(g.ty, t) == z3.If(img(t), z3.Select(gc.ty, unpre(t)), z3.Select(g0.ty, t))))),
+                ("merged:output-flags-on-nodes", z3.ForAll([t], z3.Implies(z3.Select(g.hasout, t), g.node(t)))),
+            ]}
+        ex.cuts = {}
+        for n_ in _ast.walk(fn):
+            if isinstance(n_, _ast.Expr) and isinstance(n_.value, _ast.Call) and getattr(n_.value.func, "attr", "") == "update":
+                ex.cuts[("node", id(n_))] = cut_after_update
+        bind = {"self": me, "name": name, "c": c}
+        outs = verify.bind_and_run(ex, fn, st0, bind)
+        n_ret = n_exc = 0
+        for o in outs:
+            i = o.st.pathid()
+            g1, bb1 = o.st.g(me), o.st.bb(me)
+            what = "raise(" + str(o.exc) + ")" if o.kind == "raise" else "return"
+            for lab, f in [("graph-invariant", g1.wf(ctx)), ("typed", spec.typed(ctx, g1)), ("wiring", spec.wired_edges(ctx, g1)),
+                           ("registry", spec.registry_ok(ctx, g1, bb1, pin2, None))]:
+                ctx.oblige(f"{label}/wired#{i}:{what}:{lab}", o.st.pc, f, "post")
+            if o.kind == "raise":
+                n_exc += 1
+                ctx.oblige(f"{label}/rejected-call-leaves-graph#{i}:{what}", o.st.pc, g1.same(g0, ctx), "post")
+                ctx.oblige(f"{label}/rejected-call-keeps-registry#{i}:{what}", o.st.pc, bb1.same(bb0, ctx), "post")
+                ctx.oblige(f"{label}/rejected-call-class#{i}:{what}", o.st.pc, z3.BoolVal(o.exc in ("ValueError", "KeyError")), "post")
+            else:
+                n_ret += 1
+                ctx.oblige(f"{label}/filled-instance-unregistered#{i}", o.st.pc, z3.Not(z3.Select(bb1.dom, nm)), "post")
+        ctx.oblige(f"{label}/cover:returns-and-rejects", [], z3.BoolVal(n_ret > 0 and n_exc > 0), "cover")
+        return {"function": f"{F}::{QUAL_FILL}", "sha256": sha, "lines": [fn.lineno, fn.end_lineno], "variants": [label], "kind": "postcondition on the body"}
+    return run
+
+
+TASKS["C07/fill_blackbox on the body"] = task_fill_blackbox()
